@@ -98,12 +98,12 @@ def showState (s : Inbound) : String :=
   s!"{b01 s.done}{b01 s.incremental}{b01 s.expectingSOA}{b01 s.deleteMode}:{ser}:{b01 s.txn.isSome}"
 
 /-- the same loop as `runLoop`, recording the state after every `process_message` -/
-def traceLoop (fix : Bool) (s : Inbound) : List Msg → List String → List String
+def traceLoop (fix : Bool) (s : Inbound) (all : Bool := false) : List Msg → List String → List String
   | [], acc => acc
   | m :: ms, acc =>
     match procMessage fix s m with
     | .error _ => acc ++ ["!"]
-    | .ok s' => if s'.done then acc ++ [showState s'] else traceLoop fix s' ms (acc ++ [showState s'])
+    | .ok s' => if s'.done && !all then acc ++ [showState s'] else traceLoop fix s' all ms (acc ++ [showState s'])
 
 def runOp (toks : List String) : Option String :=
   match toks with
@@ -128,11 +128,11 @@ def runOp (toks : List String) : Option String :=
     let cfg : Config := ⟨origin, t, s, u = "1"⟩
     -- E=eof: the stream ends with an exception (dns.query._inbound_xfr); E=quiet / E=exc: Inbound is driven
     -- directly and the caller leaves the with-block normally / by an exception of its own
-    let dr := drive fix cfg z msgs (en = "exc")
+    let dr := if en = "all" then driveAll fix cfg z msgs else drive fix cfg z msgs (en = "exc")
     let out : Outcome := if en = "eof" then run fix cfg z msgs else ⟨dr.err, dr.zone⟩
     let tr := if tr = "1" then (match Inbound.init origin z t s (u = "1") with
       | .error _ => []
-      | .ok s0 => traceLoop fix s0 msgs []) else []
+      | .ok s0 => traceLoop fix s0 (en = "all") msgs []) else []
     let z0c := canonZone names z
     let z1c := canonZone names out.zone
     let zs := if z0c == z1c then "=" else showZone z1c
@@ -203,7 +203,9 @@ def handleC13 : List String → Option String
   | ["c13.scmp", a, b] => do
     let a ← a.toNat?
     let b ← b.toNat?
-    some s!"{C13.b01 (serialLt a b)}{C13.b01 (serialGt a b)}"
+    -- lt gt eq ne le ge
+    let eq := serialEq a b
+    some s!"{C13.b01 (serialLt a b)}{C13.b01 (serialGt a b)}{C13.b01 eq}{C13.b01 (!eq)}{C13.b01 (eq || serialLt a b)}{C13.b01 (eq || serialGt a b)}"
   | _ => none
 
 end Driver
